@@ -195,3 +195,11 @@ Definition superop_flat (kind d : nat) (a b : gmat) : list Z :=
 Definition liouv2_flat (d : nat) (h : gmat) (terms : list (Z * gmat)) : list Z :=
   flatM (@tab_super GK d (@liouv2 GK gconj ((0, 1)%Z : G) d (gfun h)
            (map (fun t => (((fst t, 0%Z) : G), gfun (snd t))) terms))).
+
+(* ---- degeneracy maps (C06) ---------------------------------------------------------------- *)
+From OQ Require Import Model.Degeneracy.
+Definition zz_eq (a b : Z * Z) : bool := Z.eqb (fst a) (fst b) && Z.eqb (snd a) (snd b).
+(* classes (numbered by first occurrence) and first representatives *)
+Definition class_flat (keys : list (Z * Z)) : list Z :=
+  map (fun i => Z.of_nat (class_of (Z * Z) zz_eq keys i (0, 0)%Z)) (seq 0 (length keys))
+  ++ [777%Z] ++ map Z.of_nat (reps (Z * Z) zz_eq keys (0, 0)%Z).
